@@ -363,19 +363,30 @@ fn to_each<S: InputBindSet>(bind: &mut ActionBind, set: S, emods: &Mods, econds:
     }
 }
 
-fn cardinal(keys: &[KeyMod; 4]) -> Cardinal<Input> {
-    Cardinal {
-        north: key_input(keys[0]),
-        east: key_input(keys[1]),
-        south: key_input(keys[2]),
-        west: key_input(keys[3]),
+/// A preset field as a binding set of its own (plain input, input with its own modifier, nested preset).
+fn field_set(field: Field) -> DynSet {
+    match field {
+        Field::Key(key) => DynSet::collect(key_input(key)),
+        Field::KeyY(key) => DynSet::collect(key_input(key).with_modifiers(SwizzleAxis::YXZ)),
+        Field::Stick(index) => DynSet::collect(stick(index)),
+        Field::Axis(axis) => DynSet::collect(PAD_AXES[axis]),
+        Field::Btn(button) => DynSet::collect(PAD_BUTTONS[button]),
     }
 }
 
-fn bidirectional(keys: &[KeyMod; 2]) -> Bidirectional<Input> {
+fn cardinal(fields: &[Field; 4]) -> Cardinal<DynSet> {
+    Cardinal {
+        north: field_set(fields[0]),
+        east: field_set(fields[1]),
+        south: field_set(fields[2]),
+        west: field_set(fields[3]),
+    }
+}
+
+fn bidirectional(fields: &[Field; 2]) -> Bidirectional<DynSet> {
     Bidirectional {
-        positive: key_input(keys[0]),
-        negative: key_input(keys[1]),
+        positive: field_set(fields[0]),
+        negative: field_set(fields[1]),
     }
 }
 
